@@ -367,9 +367,9 @@ def ofdm_case(p, res):
     fam = long_signals(True)
     for P in (1.0, 10.0):
         for papr in (3.0, 6.0):
-            for peak in (None, 0.5, 1.2):
-                cfg = f"P={P},papr={papr},peak={peak}"
-                con = create_ofdm_constraints(total_power=P, max_papr=papr, peak_amplitude=peak)
+            for peak, isc in ((None, True), (0.5, True), (1.2, True), (None, False), (1.2, False)):
+                cfg = f"P={P},papr={papr},peak={peak},is_complex={int(isc)}"
+                con = create_ofdm_constraints(total_power=P, max_papr=papr, peak_amplitude=peak, is_complex=isc)
                 for cplx in (False, True):
                     sigs = long_signals(cplx)
                     for nm, vs in sigs.items():
